@@ -175,7 +175,7 @@ def _override(name, kind, rs):
     if name == 'makeringlatticeCIJ':
         return {'n': 7, 'k': 10}          # 14 band cells > k: the excess is removed at random
     if name == 'maketoeplitzCIJ':
-        return {'n': 7, 'k': 10, 's': 3.0}
+        return {'n': 8, 'k': 20, 's': 3.0}
     if name == 'makeevenCIJ':
         return {'n': 8, 'k': 30, 'sz_cl': 2}      # 24 cluster cells < k: the rest is placed at random
     if name == 'makefractalCIJ':
@@ -367,8 +367,14 @@ def flag_combos(func, rs, cap=16):
     return combos
 
 
+def is_sparse(v):
+    return type(v).__module__.startswith('scipy.sparse')
+
+
 def deep_copy(v):
     if isinstance(v, np.ndarray):
+        return v.copy()
+    if is_sparse(v):
         return v.copy()
     if isinstance(v, (list, tuple)):
         return type(v)(deep_copy(x) for x in v)
@@ -378,7 +384,17 @@ def deep_copy(v):
 
 
 def same(a, b):
-    """element-for-element identical, including dtype and shape (NaN equals NaN)"""
+    """element-for-element identical, including dtype and shape (NaN equals NaN); scipy.sparse matrices: same class,
+    shape, dtype and identical storage arrays (data / indices / indptr, or row / col for COO)"""
+    if is_sparse(a) or is_sparse(b):
+        if type(a) is not type(b) or a.shape != b.shape or a.dtype != b.dtype:
+            return False
+        for at in ('data', 'indices', 'indptr', 'row', 'col', 'offsets'):
+            if hasattr(a, at) != hasattr(b, at):
+                return False
+            if hasattr(a, at) and not same(np.asarray(getattr(a, at)), np.asarray(getattr(b, at))):
+                return False
+        return True
     if isinstance(a, np.ndarray) or isinstance(b, np.ndarray):
         if not (isinstance(a, np.ndarray) and isinstance(b, np.ndarray)):
             return False
